@@ -112,7 +112,10 @@ def rule_default_wrap(ctx, px):
     stmts = []
     for st, gd in pyfront.walk_guarded(f.node.body):
         if isinstance(st, ast.Assign) and isinstance(st.targets[0], ast.Subscript) and ast.unparse(st.targets[0].value) == optvar:
-            for st2 in expand_loop_constants(st):
+            # a hoisted local (`flag = getattr(self._args, name)`) is the expression it was assigned
+            st_n = ast.copy_location(ast.Assign(targets=st.targets, value=pyfront.subst_locals(f.node, st.value)), st)
+            pm_f[id(st_n)] = pm_f.get(id(st))
+            for st2 in expand_loop_constants(st_n):
                 stmts.append((st2, gd))
     for st, gd in stmts:
         if True:
